@@ -6,8 +6,8 @@ from checks import gb_src
 META = {
     "engine": "gen", "level": "exploration", "design_ref": "DESIGN.md §4.4 C55",
     "technique": "small-strain linear elasticity generated with @StrainMeasure GreenLagrange / Hencky, called through the generic finite-strain interface for every (stress measure K[1], operator K[2]) pair; stresses compared with an independent numpy reference (eigen-decomposition of C, divided differences of log), operators with Richardson finite differences of the returned stress",
-    "text": "F = R.U with rotations up to pi and principal stretches in [0.5, 2] (plus strata with two equal stretches, spherical and nearly unit stretches), random elastic constants, hypotheses axisymmetrical generalised plane strain (1D), axisymmetrical / plane strain / generalised plane strain (2D), tridimensional. GreenLagrange: the second Piola-Kirchhoff stress must be lambda tr(E) I + 2 mu E; Hencky: the stress T = lambda tr(E_log) I + 2 mu E_log dual to the logarithmic strain, converted to S through the derivative of the logarithm (the monitor's own conversion is verified by finite differences of E_log at start-up); the returned stress must be S converted to Cauchy / PK2 / PK1 as requested by K[1], whatever operator K[2] is requested and whether or not one is requested; the returned operator (dsigma/dF, dS/dE_GL, dPK1/dF) must equal the finite-difference derivative of the returned stress with respect to F (9/5/3 components) or to E_GL (F rebuilt as R.sqrt(2E+I)).",
-    "note": "Trusted: numpy.linalg.eigh, the storage conventions of tensors ([xx yy zz xy yx xz zx yz zy], Mandel for symmetric tensors). Tolerances: 1e-12 x stress scale (x 1e-2/gap when two stretches differ by less than 1e-2), operators: 50 x Richardson estimate + 1e-7 |K|. Plane stress hypotheses and the undocumented K[2]=3 (dtau/dDF) are not exercised.",
+    "text": "F = R.U with rotations up to pi and principal stretches in [0.5, 2] (plus strata with two equal stretches, spherical and nearly unit stretches), random elastic constants, hypotheses axisymmetrical generalised plane strain (1D), axisymmetrical / plane strain / generalised plane strain (2D), tridimensional. GreenLagrange: the second Piola-Kirchhoff stress must be lambda tr(E) I + 2 mu E; Hencky: the stress T = lambda tr(E_log) I + 2 mu E_log dual to the logarithmic strain, converted to S through the derivative of the logarithm (the monitor's own conversion is verified by finite differences of E_log at start-up); the returned stress must be S converted to Cauchy / PK2 / PK1 as requested by K[1], whatever operator K[2] is requested and whether or not one is requested; for every pair (stress measure K[1] in {Cauchy, PK2, PK1}) x (operator K[2] in {0 dsigma/dF, 1 dS/dE_GL, 2 dPK1/dF, 3 dtau/dDF (Integrate.hxx::getTangentOperator)}) the returned operator must equal the Richardson finite-difference derivative of the stress the flavour differentiates (taken from the behaviour's own output in that measure, itself judged against the closed form) with respect to F (9/5/3 components), to E_GL (F rebuilt as R.sqrt(2E+I)) or to DF = F1.F0^-1 (tau = J sigma): the operator must not depend on the stress measure requested. A minimum number of judged operators per (strategy, stress measure, flavour, dimension) is required.",
+    "note": "Trusted: numpy.linalg.eigh, the storage conventions of tensors ([xx yy zz xy yx xz zx yz zy], Mandel for symmetric tensors). Tolerances: 1e-12 x stress scale (x 1e-2/gap when two stretches differ by less than 1e-2), operators: 50 x Richardson estimate + 1e-7 |K|. Plane stress hypotheses are not exercised.",
 }
 
 NCASE = (60, 1500)
@@ -35,7 +35,15 @@ def run(ctx):
             ok += 1
     ctx.require(ok == 2, "both strain measures must be exercised")
     tab = ctx.cov.get("strata", {})
+    nfd = ctx.n(*NFD)
     for meas in ("GreenLagrange", "Hencky"):
-        for sub in ("stress:Cauchy", "stress:PK2", "stress:PK1", "tangent:dsig_dF", "tangent:dS_dEGL", "tangent:dPK1_dF"):
+        for sub in ("stress:Cauchy", "stress:PK2", "stress:PK1"):
             n = sum(v.get("n", 0) for k, v in tab.items() if k.startswith("VfElasticity" + meas) and k.endswith(sub))
-            ctx.require(n >= ctx.n(*NFD), "%s: stratum %s judged %d times only" % (meas, sub, n))
+            ctx.require(n >= nfd, "%s: stratum %s judged %d times only" % (meas, sub, n))
+        # full cross product (strategy) x (stress measure K[1]) x (operator flavour K[2]) x (dimension)
+        for dim in (1, 2, 3):
+            for fl in ("dsig_dF", "dS_dEGL", "dPK1_dF", "dtau_dDF"):
+                for sm in ("Cauchy", "PK2", "PK1"):
+                    k = "VfElasticity%s:%dD:tangent:%s:with-%s" % (meas, dim, fl, sm)
+                    n = tab.get(k, {}).get("n", 0)
+                    ctx.require(n >= (6 * nfd) // 10, "stratum %s: %d operators judged, at least %d planned" % (k, n, (6 * nfd) // 10))
